@@ -25,6 +25,86 @@ pub fn snapshot_problem(snap: &[u8]) -> Option<md::Problem> {
     d.problems.first().cloned()
 }
 
+fn checker(snap: &[u8]) -> Option<(String, String)> {
+    snapshot_problem(snap).map(|p| (p.sig, p.detail))
+}
+
+/// Large single flushes: application memory regions of several MiB.
+#[derive(Debug, Clone, PartialEq, Eq, Hash, serde::Serialize, serde::Deserialize)]
+pub struct BigCase {
+    /// sizes of the app regions in 64 KiB units
+    pub regions: Vec<u8>,
+    pub stack_pages: u16,
+    pub threads: u8,
+}
+
+pub fn check_big(c: &BigCase) -> Verdict {
+    init_scratch();
+    let scratch = Target::new_scratch();
+    let mut b = Builder::new();
+    let mut regions = vec![];
+    for (i, r) in c.regions.iter().enumerate() {
+        let pages = (*r as u64 % 100 + 1) * 16;
+        let (_, addr) = b.add_anon(pages, 3, 0xB16 + i as u64);
+        regions.push((addr + 24, pages * PAGE - 100));
+    }
+    for i in 0..(c.threads % 4) {
+        let st = b.add_stack(c.stack_pages as u64 % 600 + 1, true, 0x51 + i as u64);
+        b.add_thread(K_PARKED, None, st.base + 0x400, i as u64);
+    }
+    let spec = b.spec.clone();
+    let t = match Target::spawn(&spec, scratch) {
+        Ok(t) => t,
+        Err(e) => return Verdict::Inconclusive(format!("target setup: {}", e.split(':').next().unwrap_or(""))),
+    };
+    if !t.wait_settled(&spec) {
+        return Verdict::Inconclusive("target did not settle".into());
+    }
+    let opts = DumpOpts { blamed: t.pid, app_memory: regions.clone(), ..Default::default() };
+    let mut w = make_writer(t.pid, &opts);
+    let mut dest = Dest::new(vec![], 0).with_checker(checker);
+    let out = run_dump(&mut w, &mut dest);
+    if let DumpOutcome::Panic(l, m) = &out {
+        return panic_verdict(l, m);
+    }
+    let inner = dest.0.borrow();
+    if let Some((k, op, sig, detail)) = &inner.first_problem {
+        return Verdict::viol(format!("C10:prefix:{sig}"), format!("after write #{k} ({op:?}) the destination is not a consistent truncated minidump: {detail}"));
+    }
+    count("write-boundaries-decoded", inner.writes);
+    let biggest = inner.log.iter().filter_map(|o| if let DestOp::Write { len, .. } = o { Some(*len) } else { None }).max().unwrap_or(0);
+    let n_calls = inner.calls;
+    drop(inner);
+    // I/O error at every call
+    if matches!(out, DumpOutcome::Ok(_)) {
+        for k in 0..n_calls {
+            let mut w = make_writer(t.pid, &opts);
+            let mut dest = Dest::new(vec![], 0).with_fault(Fault::ErrAt(k));
+            match run_dump(&mut w, &mut dest) {
+                DumpOutcome::Err(_) => {
+                    count("io-errors-injected", 1);
+                    let inner = dest.0.borrow();
+                    if !inner.data.is_empty() {
+                        if let Some(p) = snapshot_problem(&inner.data) {
+                            return Verdict::viol(format!("C10:after-io-error:{}", p.sig), format!("I/O error at destination call {k}: what was written ({} bytes) is not a consistent truncated minidump: {}", inner.data.len(), p.detail));
+                        }
+                    }
+                }
+                DumpOutcome::Panic(l, m) => return panic_verdict(&l, &m),
+                DumpOutcome::Ok(_) => {}
+            }
+        }
+    }
+    let mut classes = vec![];
+    if biggest > (1 << 20) {
+        classes.push("single-write>1MiB".to_string());
+    }
+    if biggest > (4 << 20) {
+        classes.push("single-write>4MiB".to_string());
+    }
+    Verdict::pass_c(if biggest > (1 << 20) { Some(fp_json(c)) } else { None }, classes)
+}
+
 pub fn check(c: &c01::Case) -> Verdict {
     init_scratch();
     let scratch = Target::new_scratch();
@@ -118,10 +198,22 @@ pub fn run(ctx: &mut LaneCtx) {
         },
         check,
     );
+    ctx.run_sub(
+        SubSpec {
+            name: "big-flushes",
+            cases: (32, 1_500),
+            rule: "targets with 1..4 application memory regions of 64 KiB..6.4 MiB each and 0..3 threads with stacks of up to 600 pages, so that single flushes carry several MiB; the truncation predicate is evaluated inside the destination after EVERY completed write (no snapshots kept) and an I/O error is injected at EVERY call; non-trivial = a single write larger than 1 MiB occurred; distinct = hash of case",
+            strategy: (proptest::collection::vec(any::<u8>(), 1..5), any::<u16>(), any::<u8>()).prop_map(|(regions, stack_pages, threads)| BigCase { regions, stack_pages, threads }).boxed(),
+            max_shrink_iters: 40,
+            log_current: true,
+        },
+        check_big,
+    );
 }
 
 pub fn replay(sub: &str, case: &Value) -> Verdict {
     match sub {
+        "big-flushes" => replay_case::<BigCase>(case, check_big),
         "prefix-snapshots" => replay_case::<c01::Case>(case, check),
         _ => Verdict::Inconclusive(format!("unknown sub {sub}")),
     }
